@@ -8,6 +8,11 @@
 (*                               magnitude >= 2^31 given by its decimal    *)
 (*                               digits d; r = its canonical rendering     *)
 (*   [k |-> "inf", neg], [k |-> "nan"]                                     *)
+(*   [k |-> "nzero"]          =  negative zero (-0.0): equal to zero under *)
+(*                               every comparison, rendered "0", but       *)
+(*                               1 / -0 = -Inf; produced by - 0, x * 0 and *)
+(*                               0 / x of negative sign, ceil / round of   *)
+(*                               values in (-1, 0) / (-0.5, 0), min(-0, 0) *)
 (*   [k |-> "tau", t]         =  t * (the double nearest 1e-9), t in       *)
 (*                               {-4,-2,-1,1,2,4}: the comparison          *)
 (*                               tolerance itself and its exact multiples  *)
@@ -41,6 +46,9 @@ NInt(n) == IF AbsI(n) < Lim THEN [k |-> "fin", n |-> n, s |-> 0, e |-> 0]
            ELSE [k |-> "big", neg |-> n < 0, d |-> [i \in 1..Len(NatDigits(AbsI(n))) |-> NatDigits(AbsI(n))[i] - 48],
                  r |-> IntDigits(n)]
 Zero == NInt(0)
+NZero == [k |-> "nzero"]
+IsZ(x) == x = Zero \/ x.k = "nzero"
+Pos0(x) == IF x.k = "nzero" THEN Zero ELSE x        \* where the sign of zero cannot matter
 One == NInt(1)
 Inf(neg) == [k |-> "inf", neg |-> neg]
 NaN == [k |-> "nan"]
@@ -48,6 +56,7 @@ Tau(t) == IF t = 0 THEN [k |-> "fin", n |-> 0, s |-> 0, e |-> 0]
           ELSE IF t \in {-4, -2, -1, 1, 2, 4} THEN [k |-> "tau", t |-> t] ELSE OOD
 IsFin(x) == x.k = "fin"
 IsFin0(x) == x.k = "fin" /\ x.e = 0
+\* the IEEE sign bit: set for negative numbers and for negative zero
 
 \* sign of a number: -1, 0, 1 (nan: 0)
 Sign(x) ==
@@ -58,16 +67,22 @@ Sign(x) ==
     [] OTHER -> 0
 
 NumNeg(x) ==
-  CASE x.k = "fin" -> [x EXCEPT !.n = -x.n, !.e = -x.e]
+  CASE x = Zero -> NZero
+    [] x.k = "nzero" -> Zero
+    [] x.k = "fin" -> [x EXCEPT !.n = -x.n, !.e = -x.e]
     [] x.k = "big" -> [x EXCEPT !.neg = ~x.neg, !.r = IF x.neg THEN Tail(x.r) ELSE <<45>> \o x.r]
     [] x.k = "inf" -> [x EXCEPT !.neg = ~x.neg]
     [] x.k = "tau" -> [x EXCEPT !.t = -x.t]
     [] OTHER -> x
-NumAbs(x) == IF Sign(x) < 0 THEN NumNeg(x) ELSE x
+NumAbs(x) == IF x.k = "nzero" THEN Zero ELSE IF Sign(x) < 0 THEN NumNeg(x) ELSE x
+SignBit(x) == x.k = "nzero" \/ Sign(x) < 0
+SZero(neg) == IF neg THEN NZero ELSE Zero
 
 \* fin + fin (exact)
 NumAdd(x, y) ==
-  IF x.k = "fin" /\ y.k = "fin" THEN
+  IF y.k = "nzero" THEN (IF x.k = "ood" THEN OOD ELSE x)          \* x + -0 = x ; -0 + -0 = -0
+  ELSE IF x.k = "nzero" THEN y                                    \* -0 + y = y ; -0 + 0 = 0
+  ELSE IF x.k = "fin" /\ y.k = "fin" THEN
     LET S == MaxI(x.s, y.s) IN
     IF S - x.s > 30 \/ S - y.s > 30 THEN OOD ELSE
     LET a == x.n * Pow(2, S - x.s)
@@ -85,9 +100,9 @@ NumAdd(x, y) ==
 NumSub(x, y) == IF y.k = "ood" THEN OOD ELSE NumAdd(x, NumNeg(y))
 
 NumMul(x, y) ==
-  IF x.k = "fin" /\ y.k = "fin" THEN
-    IF x = Zero \/ y = Zero THEN Zero
-    ELSE IF x.e # 0 \/ y.e # 0 THEN OOD
+  IF x.k \in {"fin", "nzero"} /\ y.k \in {"fin", "nzero"} /\ (IsZ(x) \/ IsZ(y)) THEN SZero(SignBit(x) # SignBit(y))
+  ELSE IF x.k = "fin" /\ y.k = "fin" THEN
+    IF x.e # 0 \/ y.e # 0 THEN OOD
     ELSE IF AbsI(x.n) >= 32768 \/ AbsI(y.n) >= 32768 THEN OOD
     ELSE Fin(x.n * y.n, x.s + y.s, 0)
   ELSE IF x.k = "nan" \/ y.k = "nan" THEN NaN
@@ -101,9 +116,13 @@ RECURSIVE TwoExp(_)
 TwoExp(n) == IF n # 0 /\ n % 2 = 0 THEN 1 + TwoExp(n \div 2) ELSE 0
 \* x / y: exact iff the odd part of y's numerator divides x's numerator
 NumDiv(x, y) ==
-  IF x.k = "fin" /\ y.k = "fin" THEN
-    IF y = Zero THEN (IF Sign(x) > 0 THEN Inf(FALSE) ELSE IF Sign(x) < 0 THEN Inf(TRUE) ELSE NaN)
-    ELSE IF x.e # 0 \/ y.e # 0 THEN OOD
+  IF x.k \in {"fin", "nzero"} /\ IsZ(y) THEN (IF IsZ(x) THEN NaN ELSE Inf(SignBit(x) # SignBit(y)))
+  ELSE IF IsZ(x) /\ y.k \in {"fin", "inf"} THEN SZero(SignBit(x) # SignBit(y))       \* 0 / y, y # 0
+  ELSE IF x.k = "fin" /\ y.k = "inf" THEN SZero(SignBit(x) # SignBit(y))              \* x / inf
+  ELSE IF x.k = "nzero" \/ y.k = "nzero" THEN
+       (IF x.k = "nan" \/ y.k = "nan" THEN NaN ELSE IF x.k = "inf" THEN Inf(~x.neg) ELSE OOD)
+  ELSE IF x.k = "fin" /\ y.k = "fin" THEN
+    IF x.e # 0 \/ y.e # 0 THEN OOD
     ELSE LET od == OddPart(y.n)           \* y = od * 2^(te - y.s)
              te == TwoExp(y.n) IN
          IF x.n % AbsI(od) # 0 THEN OOD
@@ -114,22 +133,23 @@ NumDiv(x, y) ==
   ELSE IF x.k = "nan" \/ y.k = "nan" THEN NaN
   ELSE IF x.k = "inf" /\ y.k = "inf" THEN NaN
   ELSE IF x.k = "inf" /\ y.k = "fin" THEN (IF y = Zero THEN x ELSE Inf(x.neg # (Sign(y) < 0)))
-  ELSE IF y.k = "inf" /\ x.k = "fin" THEN OOD     \* +-0: sign of zero not modelled
   ELSE OOD
 
 \* truncation toward zero as an Int (only for e = 0)
 TruncI(x) == IF x.n >= 0 THEN x.n \div Pow(2, x.s) ELSE -((-x.n) \div Pow(2, x.s))
-NumTrunc(x) == IF IsFin0(x) THEN NInt(TruncI(x)) ELSE IF x.k \in {"big", "inf", "nan"} THEN x ELSE OOD
-NumFloor(x) == IF IsFin0(x) THEN NInt(x.n \div Pow(2, x.s)) ELSE IF x.k \in {"big", "inf", "nan"} THEN x ELSE OOD
-NumCeil(x) == IF IsFin0(x) THEN NInt(-((-x.n) \div Pow(2, x.s))) ELSE IF x.k \in {"big", "inf", "nan"} THEN x ELSE OOD
+\* (a result of zero keeps the sign of the operand: ceil(-0.5) = round(-0.25) = -0)
+KeepSign(x, r) == IF r = Zero /\ SignBit(x) THEN NZero ELSE r
+NumTrunc(x) == IF IsFin0(x) THEN KeepSign(x, NInt(TruncI(x))) ELSE IF x.k \in {"big", "inf", "nan", "nzero"} THEN x ELSE OOD
+NumFloor(x) == IF IsFin0(x) THEN NInt(x.n \div Pow(2, x.s)) ELSE IF x.k \in {"big", "inf", "nan", "nzero"} THEN x ELSE OOD
+NumCeil(x) == IF IsFin0(x) THEN KeepSign(x, NInt(-((-x.n) \div Pow(2, x.s)))) ELSE IF x.k \in {"big", "inf", "nan", "nzero"} THEN x ELSE OOD
 \* math.Round: half away from zero
 NumRound(x) ==
   IF IsFin0(x) THEN
     (IF x.s = 0 THEN x
      ELSE LET a == AbsI(x.n)
               q == (2 * a + Pow(2, x.s)) \div Pow(2, x.s + 1) IN
-          NInt(IF x.n < 0 THEN -q ELSE q))
-  ELSE IF x.k \in {"big", "inf", "nan"} THEN x ELSE OOD
+          KeepSign(x, NInt(IF x.n < 0 THEN -q ELSE q)))
+  ELSE IF x.k \in {"big", "inf", "nan", "nzero"} THEN x ELSE OOD
 
 \* exact comparison: -1, 0, 1;  2 = unordered (nan); 3 = not decidable here
 BigCmpAbs(a, b) == IF Len(a) # Len(b) THEN (IF Len(a) < Len(b) THEN -1 ELSE 1)
@@ -141,7 +161,8 @@ TauCmpFin(x, y) ==
        IF ae >= 5 * at THEN (IF x.t > 0 THEN -1 ELSE 1)
        ELSE IF ae <= 4 * at THEN (IF x.t > 0 THEN 1 ELSE -1)
        ELSE 3
-NumCmp(x, y) ==
+NumCmp(x0, y0) ==
+  LET x == Pos0(x0) y == Pos0(y0) IN
   IF x.k = "ood" \/ y.k = "ood" THEN 3
   ELSE IF x.k = "nan" \/ y.k = "nan" THEN 2
   ELSE IF x.k = "fin" /\ y.k = "fin" THEN
@@ -161,7 +182,8 @@ NumCmp(x, y) ==
 
 \* |x - y| < 1e-9 : for fin values this is |n-diff| = 0 and |e-diff| <= 4
 \* (1e-9 lies strictly between 4 * 2^-32 and 5 * 2^-32); "und" when not decidable
-Near(x, y) ==
+Near(x0, y0) ==
+  LET x == Pos0(x0) y == Pos0(y0) IN
   IF x.k = "fin" /\ y.k = "fin" THEN
     LET d == NumSub(x, y) IN
     IF IsOOD(d) THEN "und"
@@ -187,12 +209,23 @@ NumLE(x, y) == LET nr == Near(x, y) c == NumCmp(x, y) IN IF nr = "und" \/ c > 1 
 NumGT(x, y) == LET nr == Near(x, y) c == NumCmp(x, y) IN IF nr = "und" \/ c > 1 THEN "U" ELSE B3(c > 0 /\ nr = "no")
 NumGE(x, y) == LET nr == Near(x, y) c == NumCmp(x, y) IN IF nr = "und" \/ c > 1 THEN "U" ELSE B3(c >= 0 \/ nr = "yes")
 
-\* math.Max / math.Min (nan and signed zeros not modelled)
-NumMax(x, y) == LET c == NumCmp(x, y) IN IF c > 1 THEN OOD ELSE IF c >= 0 THEN x ELSE y
-NumMin(x, y) == LET c == NumCmp(x, y) IN IF c > 1 THEN OOD ELSE IF c <= 0 THEN x ELSE y
+\* math.Max / math.Min: an infinity of the right sign wins even over NaN, otherwise NaN is contagious;
+\* of the two zeros Max prefers +0 and Min -0
+IsInfS(x, neg) == x.k = "inf" /\ x.neg = neg
+NumMax(x, y) == IF x.k = "ood" \/ y.k = "ood" THEN OOD
+                ELSE IF IsInfS(x, FALSE) \/ IsInfS(y, FALSE) THEN Inf(FALSE)
+                ELSE IF x.k = "nan" \/ y.k = "nan" THEN NaN
+                ELSE IF IsZ(x) /\ IsZ(y) THEN (IF x = Zero \/ y = Zero THEN Zero ELSE NZero)
+                ELSE LET c == NumCmp(x, y) IN IF c > 1 THEN OOD ELSE IF c >= 0 THEN x ELSE y
+NumMin(x, y) == IF x.k = "ood" \/ y.k = "ood" THEN OOD
+                ELSE IF IsInfS(x, TRUE) \/ IsInfS(y, TRUE) THEN Inf(TRUE)
+                ELSE IF x.k = "nan" \/ y.k = "nan" THEN NaN
+                ELSE IF IsZ(x) /\ IsZ(y) THEN (IF x.k = "nzero" \/ y.k = "nzero" THEN NZero ELSE Zero)
+                ELSE LET c == NumCmp(x, y) IN IF c > 1 THEN OOD ELSE IF c <= 0 THEN x ELSE y
 
 \* float64(int64(x) % int64(y)) : truncating remainder; "mod0" when the truncated divisor is 0
-NumMod(x, y) ==
+NumMod(x0, y0) ==
+  LET x == Pos0(x0) y == Pos0(y0) IN
   IF IsFin0(x) /\ IsFin0(y) THEN
     LET a == TruncI(x)
         b == TruncI(y) IN
@@ -211,6 +244,7 @@ IsIntNum(x) ==      \* v == math.Trunc(v)
   CASE x.k = "fin" -> x.s = 0 /\ x.e = 0
     [] x.k = "big" -> TRUE
     [] x.k = "inf" -> TRUE
+    [] x.k = "nzero" -> TRUE
     [] OTHER -> FALSE
 
 \* Canonical text of a number (val.String / Key / string()): integers in plain
@@ -232,10 +266,11 @@ NumText(x) ==
     [] x.k = "big" -> x.r
     [] x.k = "inf" -> IF x.neg THEN N_nInf ELSE N_pInf
     [] x.k = "nan" -> N_NaN
+    [] x.k = "nzero" -> <<48>>           \* IsInt, int64(-0.0) = 0
     [] x.k = "tau" -> (IF x.t < 0 THEN <<45>> ELSE <<>>) \o <<48, 46, 48, 48, 48, 48, 48, 48, 48, 48, 48 + AbsI(x.t)>>
     [] OTHER -> <<>>
 NumTextKnown(x) == NumText(x) # <<>>
 
 \* float64 -> int (Go `int(f)`), only where Go defines it: finite and in range
-NumToIndex(x) == IF IsFin0(x) THEN [ok |-> TRUE, i |-> TruncI(x)] ELSE [ok |-> FALSE]
+NumToIndex(x0) == LET x == Pos0(x0) IN IF IsFin0(x) THEN [ok |-> TRUE, i |-> TruncI(x)] ELSE [ok |-> FALSE]
 =============================================================================
